@@ -32,7 +32,10 @@ def _cal(lib, kind):
         return None
     if kind == "poly":
         return K.PolynomialCalibrator([K.PolynomialCoefficient(-2.5, 0), K.PolynomialCoefficient(0.5, 1), K.PolynomialCoefficient(3.0, 2)])
-    _, order, ex = kind.split("-")
+    _, order, ex, *tie = kind.split("-")
+    if tie:     # a step: two points with the same raw coordinate, the calibrated value stepping DOWN (stored order must survive a round trip)
+        return K.SplineCalibrator([K.SplinePoint(0.0, 0.0), K.SplinePoint(10.0, 5.0), K.SplinePoint(10.0, 1.0), K.SplinePoint(20.0, 2.0)],
+                                  order=int(order), extrapolate=ex == "T")
     return K.SplineCalibrator([K.SplinePoint(0.0, 1.0), K.SplinePoint(10.0, -4.5), K.SplinePoint(255.0, 7.0)], order=int(order), extrapolate=ex == "T")
 
 
@@ -92,7 +95,7 @@ def subject(name, dims):
 
 
 @subject("integer", [("size", [3, 8, 16]), ("encoding", ["unsigned", "signed", "twosComplement"]),
-                     ("order", ["mostSignificantByteFirst", "leastSignificantByteFirst"]), ("default", ["none", "poly", "spline-0-F", "spline-1-T"]),
+                     ("order", ["mostSignificantByteFirst", "leastSignificantByteFirst"]), ("default", ["none", "poly", "spline-0-F", "spline-1-T", "spline-0-T-tie", "spline-1-F-tie"]),
                      ("context", ["none", "one-cmp", "list+bool"]), ("unit", [None, "m/s"])])
 def _integer(lib, c):
     enc = lib.encodings.IntegerDataEncoding(c["size"], c["encoding"], byte_order=c["order"], default_calibrator=_cal(lib, c["default"]),
